@@ -152,6 +152,21 @@ def metric_term(label, F, n_remove, exp, logs=None, argpart=None, engine="compil
     return "match functional_diversity (X:=Fx) %s %s %s %s with Some d => %s | None => false end" % (EPS, fd, inner, Fm, ex)
 
 
+def tinydup_term(F):
+    """model verdict for the known finding metrics/dup-eps-absolute: the duplicate filter of FunctionalDiversity._do (absolute
+    epsilon 1e-32 on the raw objectives) flags a point of this front"""
+    return "existsb (fun b : bool => b) (dup_flags (X:=Fx) %s [] %s)" % (EPS, cfmat(F))
+
+
+def with_tinydup(label, F, t):
+    if label == "cd":
+        return t
+    if isinstance(t, tuple):
+        aux = dict(t[2]); aux["tinydup"] = tinydup_term(F)
+        return t[0], t[1], aux
+    return "", t, {"tinydup": tinydup_term(F)}
+
+
 # ---- reference definitions (independent of NumPy tricks) ----
 def ref_cd(F):
     F = np.asarray(F, dtype=float); n, M = F.shape
